@@ -2,7 +2,7 @@ package main
 
 // The linear-time clause: every scaling family of the specification is decoded at doubling sizes; the time per
 // call (minimum of three samples, each sample long enough to be measurable) must not grow faster than 3.2x per
-// doubling on two consecutive doublings - on the CPU clock of the measuring thread AND on the wall clock (a quadratic decoder
+// doubling over two consecutive doublings (more than 3.2 x 3.2 over both, each of them clearly superlinear) - on the CPU clock of the measuring thread AND on the wall clock (a quadratic decoder
 // shows 4.0 on both; scheduler noise, GC and cache effects do not reach 3.2 twice in a row on both clocks).
 // Families run one after the other, never concurrently with anything else in this process.
 
@@ -217,9 +217,20 @@ func annotate(s []measured, j int) {
 		m.ExpWall = math.Log2(m.WallUs/prev.WallUs) / ls
 		m.ExpCPU = math.Log2(m.CPUUs/prev.CPUUs) / ls
 		m.Measured = true
-		limit := math.Log2(growthLimit)
-		m.Excess = m.ExpWall > limit && m.ExpCPU > limit
 	}
+}
+
+// excessAt decides the alarm for the two doublings that end at point j: the time grew by more than 3.2 x 3.2 over
+// them (the product does not depend on the noise of the middle point), each doubling is clearly superlinear, and
+// that on the CPU clock and on the wall clock.
+func excessAt(s []measured, j int) bool {
+	if j < 2 || !s[j].Measured || !s[j-1].Measured {
+		return false
+	}
+	lim, each := 2*math.Log2(growthLimit), 1.3
+	a, b := s[j-1], s[j]
+	return a.ExpWall > each && b.ExpWall > each && a.ExpCPU > each && b.ExpCPU > each &&
+		a.ExpWall+b.ExpWall > lim && a.ExpCPU+b.ExpCPU > lim
 }
 
 func deviationOfFamily(name string) string {
@@ -291,7 +302,8 @@ func scaleBatch(c *rp.Ctx, raws []json.RawMessage) []rp.Result {
 				annotate(s, len(s)-1)
 				series[dn] = s
 				inputs[dn] = append(inputs[dn], input)
-				if n := len(s); n >= 3 && s[n-1].Excess && s[n-2].Excess {
+				if n := len(s); excessAt(s, n-1) {
+					s[n-1].Excess = true
 					// measure the three points once more: noise does not repeat itself
 					again := make([]measured, 3)
 					for j := 0; j < 3; j++ {
@@ -301,13 +313,11 @@ func scaleBatch(c *rp.Ctx, raws []json.RawMessage) []rp.Result {
 						again[j] = measured{Bytes: len(in), WallUs: float64(w2) / 1e3, CPUUs: float64(c2) / 1e3, Calls: k2}
 						annotate(again, j)
 					}
-					// confirmed if the second measurement grows by more than 3.2^2 over the two doublings on both clocks
-					lim := 2 * math.Log2(growthLimit)
-					if !(again[1].Measured && again[2].Measured && again[1].ExpWall+again[2].ExpWall > lim && again[1].ExpCPU+again[2].ExpCPU > lim) {
+					if !excessAt(again, 2) {
 						s[n-1].Unconfirmed = true
 						continue
 					}
-					what := fmt.Sprintf("decoder %s, family %s: the time per call grows faster than %.1fx per doubling on two consecutive doublings (measured twice): ", dn, cs.Name, growthLimit)
+					what := fmt.Sprintf("decoder %s, family %s: the time per call grows faster than %.1fx per doubling over two consecutive doublings (measured twice): ", dn, cs.Name, growthLimit)
 					for _, q := range s[maxInt(0, n-4):] {
 						what += fmt.Sprintf("%d bytes: %.0f us wall / %.0f us cpu (exponent %.2f / %.2f); ", q.Bytes, q.WallUs, q.CPUUs, q.ExpWall, q.ExpCPU)
 					}
